@@ -83,7 +83,9 @@ def whole_invocation_stage(ctx, scratch, quick):
     rng = ctx.rng
     n_inv = 48 if quick else 600
     n_model = 14 if quick else 120
-    inps = [mu.prog_input(rng, k, scratch) for k in range(n_inv)]
+    # 55% text-only invocations (python rendering as second oracle), 45% with sources of other kinds
+    # (accounting records, year-less text, journal and event-log fixtures) next to / instead of them
+    inps = [mu.prog_input_mixed(rng, k, scratch) if rng.random() < 0.45 else mu.prog_input(rng, k, scratch) for k in range(n_inv)]
     plan_pool = [None, None, "seed=%d,max_us=300" % rng.randrange(1 << 30), "seed=%d,max_us=1500,poll_us=300" % rng.randrange(1 << 30),
                  "seed=%d,max_us=0,poll_us=1500" % rng.randrange(1 << 30)]
     from concurrent.futures import ThreadPoolExecutor
@@ -108,20 +110,29 @@ def whole_invocation_stage(ctx, scratch, quick):
         got = mu.prog_summary_nums(res["stderr"]) if (inp["summary"] and res["rc"] == 0) else []
         res["nums"], res["exp"], res["exp_nums"], res["order"] = got, exp, nums, order
         cases.append(mu.prog_coq_case(inp, res["stdout"], got))
-        if res["rc"] != 0 or res["stdout"] != exp or (inp["summary"] and got != nums):
+        if exp is not None and (res["rc"] != 0 or res["stdout"] != exp or (inp["summary"] and got != nums)):
             py_fail[k] = True
+    t_runs = time.time() - t_stage
     okc, bad, logc = mu.prog_eval(os.path.join(vlib.CACHE, "cases", PROP, "pspec"), "spec_bad", cases, "spec_case")
+    t_spec = time.time() - t_stage - t_runs
     if not okc:
         ctx.obligation_broken("spec-evaluation", "coqc on whole-invocation cases (Corr/C01p.spec_bad)", logc)
         bad = {}
     out_of_gate = sum(1 for c in bad.values() if c == 8)
-    for k, code in sorted(bad.items()):
-        if code == 7:
-            ctx.obligation_broken("generator", "whole-invocation case outside Program.domain", json.dumps(mu.prog_describe(inps[k])))
+    out_of_domain = [k for k, c in bad.items() if c >= 9000000]
+    for k in out_of_domain:
+        si = bad[k] - 9000000
+        kind = inps[k]["sources"][si].get("kind", "text") if si < len(inps[k]["sources"]) else "?"
+        if kind in ("text", "sorted", "yearless", "evtx"):
+            # these are generated inside the domain: a defect of the generator
+            ctx.obligation_broken("generator", "whole-invocation case outside Program.domain (source %d, %s)" % (si, kind), json.dumps(mu.prog_describe(inps[k])))
+            break
+    if len(out_of_domain) > max(3, n_inv // 8):
+        ctx.obligation_broken("generator", "%d of %d whole invocations outside Program.domain (layout detection / journal instants)" % (len(out_of_domain), n_inv), "")
     for k, (inp, res) in enumerate(zip(inps, results)):
         code = bad.get(k, 0)
-        if code in (7, 8):
-            continue                      # 8: stage 1 of the model rejects a file at this block size (C12 findings)
+        if code == 8 or code >= 9000000:
+            continue                      # 8: stage 1 of the model rejects a text file at this block size (C12 findings); >= 9000000: outside the domain
         if res["rc"] == 124:
             fail_n += 1
             ctx.failure(mu.prog_save_failure(PROP, ctx.seed, inp, res["plan"], fail_n), "terminates", "no exit within 60 s")
@@ -131,17 +142,26 @@ def whole_invocation_stage(ctx, scratch, quick):
                         "exit status %d; stderr %r" % (res["rc"], res["stderr"][-300:].decode("utf-8", "replace")))
         elif code != 0 and okc:
             fail_n += 1
+            if res["exp"] is None:
+                # mixed kinds: the expected output is the specification's, evaluated by coqc
+                res["exp"] = mu.prog_spec_stdout(os.path.join(vlib.CACHE, "cases", PROP, "pexp"), cases[k]) or b""
+                res["exp_nums"] = None
+                res["exp_from_spec"] = True
             if code >= 1000:
                 at = code - 1000
                 exp_d = dict(stdout_first_difference_at_byte=at, expected_around=res["exp"][max(0, at - 60):at + 60].decode("utf-8", "replace"),
                              expected_bytes=len(res["exp"]))
                 got_d = dict(got_around=res["stdout"][max(0, at - 60):at + 60].decode("utf-8", "replace"), got_bytes=len(res["stdout"]))
             else:
-                name = ["Printed bytes", "Printed lines", "Printed syslines", "Datetime printed first (s)", "Datetime printed last (s)"][code - 2]
-                exp_d = dict(summary=name, expected=(res["exp_nums"][code - 2]), all_expected=res["exp_nums"])
+                name = ["Printed bytes", "Printed lines", "Printed syslines", "Printed fixedstruct", "Printed evtx events", "Printed journal events",
+                        "Datetime printed first (s)", "Datetime printed last (s)"][code - 2]
+                exp_d = dict(summary=name, expected=(res["exp_nums"][code - 2] if res["exp_nums"] else "see Corr/C01p.spec_bad on the saved case"), all_expected=res["exp_nums"])
                 got_d = dict(summary=name, got=(res["nums"][code - 2] if len(res["nums"]) > code - 2 else None), all_got=res["nums"])
-            ctx.failure(mu.prog_save_failure(PROP, ctx.seed, inp, res["plan"], fail_n, extra=dict(spec_code=code)), exp_d, got_d)
-            if k not in py_fail:
+            extra = dict(spec_code=code)
+            if res.get("exp_from_spec"):
+                extra["expected_stdout_bytes"] = res["exp"]
+            ctx.failure(mu.prog_save_failure(PROP, ctx.seed, inp, res["plan"], fail_n, extra=extra), exp_d, got_d)
+            if k not in py_fail and not res.get("exp_from_spec"):
                 ctx.obligation_broken("oracle", "Program.program_spec (Coq) and the python rendering disagree on a whole invocation",
                                       json.dumps(dict(case=mu.prog_describe(inp), spec_code=code)))
         elif code == 0 and k in py_fail and okc:
@@ -149,7 +169,8 @@ def whole_invocation_stage(ctx, scratch, quick):
                                   json.dumps(dict(case=mu.prog_describe(inp), got=res["stdout"][:300].decode("utf-8", "replace"),
                                                   expected=res["exp"][:300].decode("utf-8", "replace"), nums=[res["nums"], res["exp_nums"]])))
     # ---- B: the composed code-level model under the recorded schedule
-    sample = [k for k in range(n_inv) if results[k]["rc"] == 0 and bad.get(k, 0) != 8][:n_model]
+    sample = [k for k in range(n_inv) if results[k]["rc"] == 0 and bad.get(k, 0) != 8 and bad.get(k, 0) < 9000000]
+    sample = ([k for k in sample if inps[k].get("mixed")][:n_model // 2] + [k for k in sample if not inps[k].get("mixed")])[:n_model]
     mcases = []
     for k in sample:
         if results[k]["trace"] is None:
@@ -160,12 +181,12 @@ def whole_invocation_stage(ctx, scratch, quick):
     if not okm:
         ctx.obligation_broken("correspondence", "model evaluation (coqc on whole-invocation cases, Corr/C01p.model_bad)", logm)
     for j, code in sorted(mbad.items())[:1]:
-        if code == 8:
+        if code == 8 or code >= 9000000:
             continue
         k = sample[j]
         ctx.obligation_broken("correspondence", "s4 whole invocation vs Model.Program.program_m (block-wise readers + search + coordinator under the recorded schedule + printer + summary)",
                               json.dumps(dict(case=mu.prog_describe(inps[k]), plan=results[k]["plan"], code=code,
-                                              meaning="1000+k stdout differs at byte k; 2-6 summary number differs; 21 a worker model ended abnormally; 22 recorded schedule not an execution of Model/Coord; 23 schedule not final",
+                                              meaning="1000+k stdout differs at byte k; 2-9 summary number differs; 21 a worker model ended abnormally; 22 recorded schedule not an execution of Model/Coord; 23 schedule not final",
                                               disagreements=len(mbad))))
     # ---- evidence
     def cross_ties(inp):
@@ -176,25 +197,39 @@ def whole_invocation_stage(ctx, scratch, quick):
                     seen.setdefault(m["inst"], set()).add(i)
         return sum(1 for v in seen.values() if len(v) > 1)
     nontriv = set()
+    kind_hist = {}
+    for inp in inps:
+        for s in inp["sources"]:
+            kk = {"sorted": "text"}.get(s.get("kind", "text"), s.get("kind", "text")) + "/" + s["container"]
+            kind_hist[kk] = kind_hist.get(kk, 0) + 1
     for inp, res in zip(inps, results):
         deco = bool(inp["fmode"] or inp["zone"] or inp["fmt"] or inp["sep"][0])
+        if res["order"] is None:
+            if deco and res["stdout"].count(b"\n") >= 2:
+                nontriv.add(json.dumps([mu.prog_argv(inp)[:-len(inp["sources"])], [s["name"] for s in inp["sources"]], len(res["stdout"])]))
+            continue
         if len(res["order"]) >= 2 and deco:
             nontriv.add(json.dumps([mu.prog_argv(inp)[:-len(inp["sources"])], [[m["inst"] for m in s["msgs"]] for s in inp["sources"]]]))
     hist_bs, hist_n = {}, {}
     for inp in inps:
         hist_bs[str(inp["bs"] or 65536)] = hist_bs.get(str(inp["bs"] or 65536), 0) + 1
-        hist_n[len(inp["sources"])] = hist_n.get(len(inp["sources"]), 0) + 1
+        hist_n[str(len(inp["sources"]))] = hist_n.get(str(len(inp["sources"])), 0) + 1
     return dict(
         whole_invocations=n_inv, whole_invocations_distinct_nontrivial=len(nontriv),
-        whole_invocation_rule="1-5 chronological text files (plain / .gz, ISO timestamps with 6-9 fractional digits and numeric offsets, tie-heavy instants shared across files, 30% multi-line messages, 45% of the files without final newline) x random options (-n/-p, -w, -u/-l(TZ)/-z, -d from 6 formats, 5 prepend separators, 7 separators with escapes) x --blocksz {64,65,100,127,128,500,4096,default} x window (-a and/or -b on an instant present, +-1 us, +-1 ms; 45% none) x --summary (70%) x 5 planned schedules; compared: stdout bytes and Printed bytes/lines/syslines + first/last printed second vs Program.program_spec by vm_compute (and vs a python rendering); sample also vs Program.program_m under the recorded recv/print trace; non-trivial = at least 2 printed messages and a decoration option",
-        whole_invocation_spec_disagreements=sum(1 for c in bad.values() if c not in (7, 8)), whole_invocation_python_disagreements=len(py_fail),
+        whole_invocation_rule="1-5 chronological text files (plain / .gz, ISO timestamps with 6-9 fractional digits and numeric offsets, tie-heavy instants shared across files, 30% multi-line messages, 45% of the files without final newline) x random options (-n/-p, -w, -u/-l(TZ)/-z, -d from 6 formats, 5 prepend separators, 7 separators with escapes) x --blocksz {64,65,100,127,128,500,4096,default} x window (-a and/or -b on an instant present, +-1 us, +-1 ms; 45% none) x --summary (70%) x 5 planned schedules; compared: stdout bytes and Printed bytes/lines/syslines/fixedstruct/evtx/journal + first/last printed second vs Program.program_spec by vm_compute (text-only invocations also vs a python rendering); sample also vs Program.program_m under the recorded recv/print trace; 45% of the invocations hold 1-3 sources of other kinds next to (25%: instead of) the text files: utmpx/lastlog files synthesised by checks/c08_util.py (records in any stored order, equal times, null and 0xFF records) and the wtmp fixture, year-less syslog files (mtime set, year boundary, plain/.gz, fallback zone of -l), the journal fixture and the evtx fixture (always windowed to <= 12 events; events / entries = what s4 prints for that file alone); non-trivial = at least 2 printed messages and a decoration option",
+        whole_invocation_spec_disagreements=sum(1 for c in bad.values() if c != 8 and c < 9000000), whole_invocation_python_disagreements=len(py_fail),
+        whole_invocations_mixed_kinds=sum(1 for i in inps if i.get("mixed")), whole_invocation_source_kind_histogram=kind_hist,
+        whole_invocations_outside_domain_not_compared=len(out_of_domain),
+        whole_invocations_outside_domain_source_kinds=sorted(set(inps[k]["sources"][bad[k] - 9000000].get("kind", "text") for k in out_of_domain if bad[k] - 9000000 < len(inps[k]["sources"]))),
+        whole_invocation_wall_runs_s=round(t_runs, 1), whole_invocation_wall_spec_eval_s=round(t_spec, 1),
         whole_invocations_skipped_gate_rejects_at_blocksz=out_of_gate,
-        whole_invocation_model_cases=len(mcases), whole_invocation_model_disagreements=sum(1 for c in mbad.values() if c != 8),
+        whole_invocation_model_cases=len(mcases), whole_invocation_model_disagreements=sum(1 for c in mbad.values() if c != 8 and c < 9000000),
+        whole_invocation_model_cases_mixed_kinds=sum(1 for k in sample[:len(mcases)] if inps[k].get("mixed")),
         whole_invocations_with_window=sum(1 for i in inps if i["lo"] is not None or i["hi"] is not None),
-        whole_invocations_with_empty_selection=sum(1 for r in results if not r["order"]),
+        whole_invocations_with_empty_selection=sum(1 for r in results if not r["stdout"]),
         whole_invocations_with_cross_file_ties_in_window=sum(1 for i in inps if cross_ties(i)),
-        whole_invocations_with_multiline_printed=sum(1 for i, r in zip(inps, results) if any(i["sources"][a]["msgs"][[p for p, m in enumerate(i["sources"][a]["msgs"]) if mu.prog_in_window(i, m["inst"])][b]]["cont"] for a, b in r["order"])),
-        whole_invocations_with_supplied_newline=sum(1 for i in inps if any((not s["final_nl"]) and s["msgs"] and mu.prog_in_window(i, s["msgs"][-1]["inst"]) for s in i["sources"])),
+        whole_invocations_with_multiline_printed=sum(1 for i, r in zip(inps, results) if r["order"] is not None and any(i["sources"][a]["msgs"][[p for p, m in enumerate(i["sources"][a]["msgs"]) if mu.prog_in_window(i, m["inst"])][b]]["cont"] for a, b in r["order"])),
+        whole_invocations_with_supplied_newline=sum(1 for i in inps if any((not s.get("final_nl", True)) and s["msgs"] and mu.prog_in_window(i, s["msgs"][-1]["inst"]) for s in i["sources"])),
         whole_invocations_with_gz=sum(1 for i in inps if any(s["container"] == "gz" for s in i["sources"])),
         whole_invocations_with_summary=sum(1 for i in inps if i["summary"]),
         whole_invocation_blocksz_histogram=hist_bs, whole_invocation_files_histogram=hist_n,
@@ -383,7 +418,7 @@ def run(ctx):
         "crossbeam-channel is FIFO per channel, send blocks only when full, select returns some ready channel (oracle contract of Model/Coord.v)",
         "PathId = argument position (all generated files are valid sources); for a directory argument PathId = sorted name order",
         "planned delays (S4_VERIF_PLAN) steer but do not enumerate the OS schedule; the theorems quantify over all schedules",
-        "whole-invocation stage: the timestamp oracle `dated` of Program.program_spec / program_m is the generator's table (first line of every message -> its instant; continuation lines contain no two consecutive digits, so no pattern dates them); the prepended name has as many characters as display columns (ASCII); year-bearing notation only (process_missing_year is outside the composed model); a case in which stage 1 of the MODEL rejects a file at the run's block size is not compared (C12 findings F3a-c), its count is in the evidence",
+        "whole-invocation stage: the timestamp oracle `dated` of Program.program_spec / program_m is the generator's table (first line of every message -> its instant; continuation lines contain no two consecutive digits, so no pattern dates them); the prepended name has as many characters as display columns (ASCII); year-bearing notation only (process_missing_year is outside the composed model); a case in which stage 1 of the MODEL rejects a file at the run's block size is not compared (C12 findings F3a-c), its count is in the evidence; mixed kinds: the enumeration of an evtx / journal fixture is what s4 prints for that file alone (instants and texts; this validates the composition - merge, window, decoration, totals - not the order inside such a file, which is C10 / C09), a journal entry's receive time is taken equal to its printed instant (windows lie days away from the fixture's entries), events outside the window carry an empty text in the Coq case (they are never printed), the record layouts are the frozen reference layouts of checks/c08_ref_layouts.json, window bounds are whole microseconds (accounting-record and journal filters compare at microsecond granularity)",
     ]
     return ctx.finish()
 
